@@ -44,7 +44,7 @@ func (h *H) healthy(from, to *Node) *PConn {
 		syncSeq++
 		s := syncSeq
 		from.Sys.Tell(RemoteRecv(to), &XMsg{Kind: KSync, Seq: s})
-		if waitUntil(100*time.Millisecond, func() bool { return hasSync(to, s) }) {
+		if waitUntil(2*time.Second, func() bool { return hasSync(to, s) }) {
 			return to.Proxy.Conns(0)[to.Proxy.NConns()-1]
 		}
 	}
@@ -59,8 +59,11 @@ func (h *H) healthy(from, to *Node) *PConn {
 }
 
 func hasSync(n *Node, s uint64) bool {
-	for _, g := range n.Rec.Snapshot(0) {
-		if g.Kind == KSync && g.Seq == s {
+	n.Rec.mu.Lock()
+	defer n.Rec.mu.Unlock()
+	g := n.Rec.got
+	for i := len(g) - 1; i >= 0 && i >= len(g)-400; i-- {
+		if g[i].Kind == KSync && g[i].Seq == s {
 			return true
 		}
 	}
@@ -298,6 +301,10 @@ func (h *H) call(A, B *Node, m *XMsg) callObs {
 	if !done {
 		h.o.Monitor("c14-no-report", lib.L(lib.S("call"), lib.N(uint64(m.Sender)), lib.N(m.Seq)),
 			fmt.Sprintf("Tell(sender %d seq %d) returned after %v; within 3 s neither a RemotingMessageSentEvent nor a DeathLetterEvent for it (events: %v)", m.Sender, m.Seq, co.dur, co.events))
+		h.noReport++
+		if h.noReport >= 3 {
+			h.abort = true // every further scenario would wait again for reports that do not come
+		}
 	}
 	if co.ok && co.dead {
 		h.o.Monitor("c14-sent-and-dead", lib.L(lib.S("call"), lib.N(uint64(m.Sender)), lib.N(m.Seq)), fmt.Sprintf("message reported both as sent and as dead letter: %v", co.events))
@@ -494,7 +501,7 @@ func (h *H) msg(sender uint32, n int) *XMsg {
 
 // flush: keep telling until one arrives (the link is fine again); every call belongs to the scenario
 func (sc *scenario) flush(h *H, max int) bool {
-	for i := 0; i < max; i++ {
+	for i := 0; i < max && !h.abort; i++ {
 		m := h.msg(7, 1)
 		sc.do(h, m, 0)
 		if waitUntil(40*time.Millisecond, func() bool {
@@ -533,7 +540,7 @@ func (h *H) cutAt(A, B *Node, k int64, frameLen func(*XMsg) int, sizes []int) {
 	rec, _ := c.Record()
 	nfull := len(splitFrames(rec[sc.start:]))
 	waitUntil(2*time.Second, func() bool { return B.Rec.Len()-sc.m.rec >= nfull })
-	if !sc.flush(h, 12) {
+	if !sc.flush(h, 12) && !h.abort {
 		h.o.Monitor("c14-no-recovery", lib.L(lib.S("cut"), lib.N(uint64(k))), fmt.Sprintf("%s: after the cut none of 12 further Tells (40 ms apart) was delivered although the peer is reachable", sc.name))
 	}
 	sc.finish(h, true)
@@ -578,7 +585,7 @@ func (h *H) refused(A, B *Node, frameLen func(*XMsg) int) {
 	if err := B.Proxy.Refuse(false); err != nil {
 		panic(err)
 	}
-	if !sc.flush(h, 12) {
+	if !sc.flush(h, 12) && !h.abort {
 		h.o.Monitor("c14-no-recovery", lib.L(lib.S(sc.name)), sc.name+": the peer accepts connections again but none of 12 further Tells was delivered")
 	}
 	sc.finish(h, true)
@@ -615,6 +622,14 @@ func (h *H) rejected(A, B *Node, frameLen func(*XMsg) int, hsCut int) {
 		n0 := B.Proxy.NConns()
 		m := h.msg(8, 2)
 		co := h.call(A, B, m)
+		if co.dead {
+			// a dial that reported the reset itself may not have been registered by the proxy's accept loop yet
+			want := A.Limit + 1
+			if len(co.events) > 0 && co.events[0] == "sf" {
+				want--
+			}
+			waitUntil(500*time.Millisecond, func() bool { return B.Proxy.NConns()-n0 >= want })
+		}
 		fails := B.Proxy.NConns() - n0
 		// every attempt after a leading write failure met one reset connection: either the dial itself reported the
 		// reset (RemotingConnectionFailedEvent, RetryCount = attempt number) or the handshake failed (no event)
@@ -658,7 +673,7 @@ func (h *H) rejected(A, B *Node, frameLen func(*XMsg) int, hsCut int) {
 		}
 	}
 	bad = false
-	if !sc.flush(h, 12) {
+	if !sc.flush(h, 12) && !h.abort {
 		h.o.Monitor("c14-no-recovery", lib.L(lib.S(sc.name)), sc.name+": handshakes pass again but none of 12 further Tells was delivered")
 	}
 	B.Proxy.SetPlan(func(int) Plan { return defaultPlan() })
@@ -758,6 +773,9 @@ func (h *H) garbage(A, B *Node, frameLen func(*XMsg) int) {
 
 // restart: the peer system stops and a new one comes up behind the same advertised address
 func (h *H) restart(A, B *Node) *Node {
+	if h.abort {
+		return B
+	}
 	c := h.healthy(A, B)
 	if c == nil {
 		return B
@@ -803,7 +821,11 @@ func (h *H) restart(A, B *Node) *Node {
 func (h *H) runLink() {
 	type pair struct{ A, B *Node }
 	var pairs []pair
-	for _, lim := range []int{0, 2} {
+	limits := []int{0, 2}
+	if h.tier == "thorough" {
+		limits = []int{0, 1, 2, 3}
+	}
+	for _, lim := range limits {
 		A, err := StartNode(fmt.Sprintf("A%d", lim), lim, nil)
 		if err != nil {
 			panic(err)
@@ -856,6 +878,14 @@ func (h *H) runLink() {
 					}
 				}
 				h.cutAt(A, B, k, frameLen, sizes)
+			}
+			if thorough && A.Limit == 0 {
+				// a second stream: 1, 300 and 17 data bytes
+				sizes2 := []int{1, 300, 17}
+				total2 := int64(3*ovh + 318)
+				for k := int64(0); k < total2; k++ {
+					h.cutAt(A, B, k, frameLen, sizes2)
+				}
 			}
 			h.logf("limit %d: cut scenarios done in %.1fs", A.Limit, time.Since(t0).Seconds())
 			h.refused(A, B, frameLen)
